@@ -22,6 +22,11 @@ import (
 // map (where each key-value pair counts as two items).
 const MaxArrayDecodeLength = 100_000
 
+// MaxNestingDepth is the maximum depth of nested arrays, maps, and tags that
+// will be decoded. Deeper nesting results in an error, which keeps stack use
+// and the cost of error wrapping bounded for untrusted input.
+const MaxNestingDepth = 256
+
 // Major types (high 3 bits)
 const (
 	unsignedIntMajorType byte = 0x00
@@ -222,6 +227,9 @@ func Unmarshal(data []byte, v any) error {
 type Decoder struct {
 	r io.Reader
 
+	// current nesting depth of arrays, maps, and tags
+	depth int
+
 	DecoderOptions
 }
 
@@ -284,6 +292,15 @@ func (d *Decoder) decodeRaw() ([]byte, error) {
 
 func (d *Decoder) decodeRawVal(highThreeBits, lowFiveBits byte, additional []byte) ([]byte, error) {
 	head := append([]byte{(highThreeBits << 5) | lowFiveBits}, additional...)
+
+	switch highThreeBits {
+	case arrayMajorType, mapMajorType, tagMajorType:
+		if d.depth >= MaxNestingDepth {
+			return nil, fmt.Errorf("nesting exceeds max depth: %d", MaxNestingDepth)
+		}
+		d.depth++
+		defer func() { d.depth-- }()
+	}
 
 	switch highThreeBits {
 	// Types containing only first byte and additional data
@@ -357,6 +374,16 @@ func (d *Decoder) decodeVal(rv reflect.Value) error {
 	highThreeBits, lowFiveBits, additional, err := d.typeInfo()
 	if err != nil {
 		return err
+	}
+
+	// Bound the nesting of arrays, maps, and tags
+	switch highThreeBits {
+	case arrayMajorType, mapMajorType, tagMajorType:
+		if d.depth >= MaxNestingDepth {
+			return fmt.Errorf("nesting exceeds max depth: %d", MaxNestingDepth)
+		}
+		d.depth++
+		defer func() { d.depth-- }()
 	}
 
 	// Allow rv to be a pointer for nullable types
